@@ -137,7 +137,8 @@ func (f *Failure) Error() string { return f.Sig + ": " + f.Detail }
 
 // Failf builds a Failure.
 func Failf(sig string, format string, a ...any) *Failure {
-	return &Failure{Sig: sig, Detail: fmt.Sprintf(format, a...)}
+	// signatures travel through whitespace-delimited protocol lines (VIOLATION-CANDIDATE, REPLAY-FAILS)
+	return &Failure{Sig: strings.Join(strings.Fields(sig), "-"), Detail: fmt.Sprintf(format, a...)}
 }
 
 // Recorder accumulates coverage of one property in one process.
